@@ -58,7 +58,7 @@ func nodeCase(c ncase, r *vlib.Rec) {
 				rv, err := e.ReadRoot(msg)
 				if err != nil {
 					fail("read-root/error", "%v", err)
-				} else if a, b := structOf(rv), structOf(v); a != b {
+				} else if a, b := structOf(rv), structOf(v); a.Size() != b.Size() || (a.Size() != capnp.ObjectSize{} && !capnp.SamePtr(a.ToPtr(), b.ToPtr())) {
 					fail("read-root/other-struct", "ReadRoot%s does not return the root struct", n.GoName)
 				}
 			}
